@@ -61,6 +61,12 @@ func c05Materialize(wd string, nodes map[int]map[string]interface{}, files map[i
 		}
 		byFile[f][asStr(nd["name"])] = svc
 	}
+	// a service every chain member may depend on, whichever files the chain runs through
+	if byFile[1] != nil {
+		if _, taken := byFile[1]["zdep"]; !taken {
+			byFile[1]["zdep"] = map[string]interface{}{"image": "base"}
+		}
+	}
 	var mainDoc string
 	for f, svcs := range byFile {
 		doc := yamlTagged(map[string]interface{}{"services": svcs})
@@ -242,6 +248,7 @@ func C05(c *core.Ctx) {
 	}
 	n := 0
 	var nmu sync.Mutex
+	invalidBy := map[string]int{}
 	_, err = core.ReadDumpParallel(dump+".dump", 8, func(idx int, vars map[string]interface{}) error {
 		cs := asMap(vars["cs"])
 		if _, seed := cs["seed"]; seed {
@@ -272,6 +279,7 @@ func C05(c *core.Ctx) {
 				tsvcs[asStr(nodes[id]["name"])] = plainOfTagged(x)
 			}
 		}
+		tsvcs["zdep"] = map[string]interface{}{"image": "base"}
 		target := yamlTagged(map[string]interface{}{"services": tsvcs})
 		attr := asStr(cs["attr"])
 		key := fmt.Sprintf("%s %s depth=%d place=%v %s", asStr(cs["kind"]), attr, asInt(cs["depth"]), cs["place"], mainDoc)
@@ -283,11 +291,15 @@ func C05(c *core.Ctx) {
 		pt, et := safeLoad(wd, nil, []namedDoc{{Name: filepath.Join(wd, "target.yaml"), Content: target}})
 		var dumps []string
 		var lastErr error
+		var p0 *types.Project
 		for rep := 0; rep < reps; rep++ { // fresh map orders: the result must not depend on visit order
 			p, e := safeLoad(wd, nil, []namedDoc{{Name: filepath.Join(wd, "compose.yaml")}})
 			if e != nil {
 				lastErr = e
 				break
+			}
+			if p0 == nil {
+				p0 = p
 			}
 			for name, s := range p.Services {
 				if s.Extends != nil {
@@ -299,6 +311,9 @@ func C05(c *core.Ctx) {
 		}
 		switch {
 		case lastErr != nil && et != nil:
+			nmu.Lock()
+			invalidBy[attr+": "+firstLine(et.Error())]++
+			nmu.Unlock()
 			return nil // not a valid model in either form
 		case lastErr != nil:
 			c.Report(core.Finding{Sig: "chain-rejected:" + attr, Detail: fmt.Sprintf("%s: the files with extends fail to load (%v) although the flattened document loads — main %s", attr, lastErr, mainDoc), Replay: rep})
@@ -313,7 +328,11 @@ func C05(c *core.Ctx) {
 					break
 				}
 			}
-			if dumps[0] != dt {
+			if dumps[0] != dt && attr == "depends_on" && c05OnlyDependencyDefaults(p0, pt, nodes) {
+				// one known class (known-findings.json): the only difference is `required` / `condition` of dependency entries, and a
+				// service of a file other than the main one writes such an entry without them
+				c.Report(core.Finding{Sig: "extended-file-depends-on-defaults", Detail: fmt.Sprintf("a depends_on entry written without `required` / `condition` on a service of another file that extends a base setting them: the defaults are written out when that file is loaded and override the base's values, whereas the same chain inside one file keeps them (main %s, placement %v, flattened %s)", mainDoc, cs["place"], target), Replay: rep})
+			} else if dumps[0] != dt {
 				c.Report(core.Finding{Sig: "extends-differs:" + attr, Detail: fmt.Sprintf("%s: files with extends (main %s, placement %v) differ from the flattened %s: %s", attr, mainDoc, cs["place"], target, firstDiff(dumps[0], dt)), Replay: rep})
 			}
 		}
@@ -325,6 +344,10 @@ func C05(c *core.Ctx) {
 	}
 	c.AddTraces(int64(n))
 	c.Set("chain_cases", n)
+	c.Set("chain_cases_invalid_in_both_forms", invalidBy)
+	for k, v := range invalidBy {
+		c.Logf("loads in neither form (%d cases): %s", v, k)
+	}
 	c.Set("exhaustive", true)
 	c.Logf("%d chain cases replayed", n)
 	c.Set("rule", "a case is a reference graph on 3 services over 2 files (error iff cyclic or dangling), or a chain of 2 (3) services over files in 1-3 directories with one attribute placed along the chain in every way; 5 real loads each; all non-trivial")
@@ -346,4 +369,48 @@ func dedupEnvFiles(p *types.Project) {
 		s.EnvFiles = out
 		p.Services[name] = s
 	}
+}
+
+// c05OnlyDependencyDefaults: the two projects are equal once `required` and `condition` of every dependency are masked, and some
+// service of a file other than the main one declares a depends_on entry in long form without one of them.
+func c05OnlyDependencyDefaults(a, b *types.Project, nodes map[int]map[string]interface{}) bool {
+	omits := false
+	for _, nd := range nodes {
+		if asInt(nd["file"]) == 1 {
+			continue
+		}
+		svc, _ := plainOfTagged(nd["local"]).(map[string]interface{})
+		deps, _ := svc["depends_on"].(map[string]interface{})
+		for _, e := range deps {
+			em, _ := e.(map[string]interface{})
+			if em == nil {
+				continue
+			}
+			if _, ok := em["required"]; !ok {
+				omits = true
+			}
+			if _, ok := em["condition"]; !ok {
+				omits = true
+			}
+		}
+	}
+	if !omits || a == nil || b == nil {
+		return false
+	}
+	mask := func(p *types.Project) string {
+		q, err := p.WithServicesTransform(func(_ string, s types.ServiceConfig) (types.ServiceConfig, error) {
+			d := types.DependsOnConfig{}
+			for k, v := range s.DependsOn {
+				v.Required, v.Condition = true, ""
+				d[k] = v
+			}
+			s.DependsOn = d
+			return s, nil
+		})
+		if err != nil {
+			return err.Error()
+		}
+		return projDump(q)
+	}
+	return mask(a) == mask(b)
 }
